@@ -927,8 +927,15 @@ class Manager:
         """
         # process tasks
         if self._tasks:
-            for task in self._tasks.copy():
-                self.processTask(*task)
+            # (the steps run in the loop's thread like the handlers that
+            # flush() invokes: what they fire is fired "while handling")
+            old_flushing = self._flushing_thread
+            try:
+                self._flushing_thread = current_thread()
+                for task in self._tasks.copy():
+                    self.processTask(*task)
+            finally:
+                self._flushing_thread = old_flushing
 
         if self._running:
             self.fire(generate_events(self._lock, timeout), '*')
